@@ -1,3 +1,5 @@
 import KitProofs.Props.C03
+import KitProofs.Props.C03Code
 import KitProofs.Census
 #census KitProofs.Props.C03
+#census KitProofs.Props.C03Code
